@@ -166,8 +166,9 @@ class Engine:
             b = self.prefix[pos]
         else:
             if has_quant(cond):
-                can_t = self._check(cond) != z3.unsat
-                can_f = self._check(z3.Not(cond)) != z3.unsat
+                # satisfiability queries with quantifiers run into the time-out; both branches are explored
+                # (an infeasible branch only yields vacuously true obligations)
+                can_t = can_f = self._check_qf() != z3.unsat
             else:
                 can_t = self._check_qf(cond) != z3.unsat
                 can_f = self._check_qf(z3.Not(cond)) != z3.unsat
